@@ -381,7 +381,18 @@ fn holder_thread(map: &Map, cfg: &RoundCfg, tid: usize, seed: u64, bar: &Barrier
                 let n = rng.range(1, 12);
                 for _ in 0..n {
                     let k = rng.below(cfg.nkeys + cfg.stable);
-                    match rng.below(9) {
+                    match rng.below(10) {
+                        9 => {
+                            // a clone taken while writers keep changing (and growing) the source
+                            if rng.chance(1, 6) {
+                                let c = map.clone();
+                                let cg = c.guard();
+                                for (kk, v) in c.iter(&cg).take(8) {
+                                    kk.verify();
+                                    v.verify();
+                                }
+                            }
+                        }
                         0 | 1 => {
                             if let Some(v) = map.get(&KQ(k), g) {
                                 vals.push((v, v.id, v.v));
